@@ -1026,3 +1026,47 @@ Proof.
   destruct (debond_list s (expired_queue s ep)) as [s1|] eqn:E; [reflexivity|].
   exfalso. exact (debond_list_total _ _ W E).
 Qed.
+
+(* ---------- parameter changes between operations ---------- *)
+Lemma run_params_preserves_inv_l ops : forall s, Inv s -> Inv (run_params s ops).
+Proof.
+  unfold run_params. induction ops as [|[p o] r IH]; intros s I; cbn [fold_left]; [exact I|].
+  apply IH. cbn [fst snd]. apply op_preserves_inv_l. exact I.
+Qed.
+
+Lemma supply_run_params_l ops : forall s, Inv s ->
+  total_supply s = total_supply (run_params s ops) + burned_run_params s ops.
+Proof.
+  unfold run_params. induction ops as [|[p o] r IH]; intros s I; cbn [fold_left burned_run_params]; [lia|].
+  cbn [fst snd]. destruct (step_inv p s o I) as [I1 T1].
+  destruct (step p s o) as [c s1]. cbn [fst snd] in *.
+  specialize (IH s1 I1). lia.
+Qed.
+
+(* fee disbursement conserves for ALL weights (also all-zero sums, where the operation is
+   fatal and leaves the state alone, and vote + next-propose = 0, where everything pending
+   goes to the common pool) *)
+Lemma fee_disbursement_conserves_l p s pr n vs :
+  Inv s ->
+  (Inv (snd (fees_vq p s pr n vs)) /\ total_supply (snd (fees_vq p s pr n vs)) = total_supply s) /\
+  (Inv (snd (fees_p p s pr)) /\ total_supply (snd (fees_p p s pr)) = total_supply s).
+Proof.
+  intros I. split.
+  - apply keep_inv; [exact I|apply fees_vq_keep; exact (proj1 I)].
+  - apply keep_inv; [exact I|apply fees_p_keep; exact (proj1 I)].
+Qed.
+
+(* with vote + next-propose weight = 0 the pending fees all go to the common pool *)
+Lemma fees_vq_zero_weights_l p s pr n vs :
+  vq_done s = false -> p_w_vote p + p_w_next p = 0 -> n <> 0 ->
+  snd (fees_vq p s pr n vs) = with_common (with_lbf s (last_block_fees s) true) (common_pool s + last_block_fees s)
+  /\ fst (fees_vq p s pr n vs) = ROk.
+Proof.
+  intros Hv Hw Hn. unfold fees_vq. rewrite Hv, Hw. cbn [N.eqb].
+  destruct (last_block_fees s =? 0) eqn:E0.
+  - apply N.eqb_eq in E0. cbn [fst snd]. split; [|reflexivity].
+    rewrite E0, N.add_0_r. destruct s; reflexivity.
+  - destruct (n =? 0) eqn:En; [apply N.eqb_eq in En; contradiction|].
+    change (0 =? 0) with true. cbn iota. rewrite N.mul_0_l. change (0 =? 0) with true. cbn iota.
+    destruct pr; cbn [fst snd]; split; reflexivity.
+Qed.
